@@ -57,6 +57,9 @@ func vAutomata() []vAutoSpec {
 func H08_dict() {
 	// term t occurs in 1 or 2 documents (or not at all); 3 documents
 	nDocs := 3
+	if vParam("lite", 0) == 1 {
+		vDictAlphabet = []string{"", "a", "ab", "b"}
+	}
 	card := make([]int, len(vDictAlphabet))
 	docs := make([]*vDoc, nDocs)
 	for d := range docs {
